@@ -35,7 +35,9 @@ REST_TOKENS = ['-l', '-v', '-o', 'out.x', '--outfile=zzz', '-h', '--help', '-V',
                # tokens other argparse conventions would treat specially (file expansion, other prefix characters)
                '@args.txt', '@nofile', '@', '+l', '/v',
                # the switches of the importable decorator (explicit_profiler): under kernprof they are program arguments
-               '--line-profile', '--line_profile']
+               '--line-profile', '--line_profile',
+               # longer tokens that merely begin like kernprof's own -m
+               '-march=native', '-m32', '-max']
 AMBIG_TOKENS = ['--p', '--prof', '--pro=3', '--o', '--out', '--ou', '--=', '--s', '--v', '--r', '--pr', '--outfile=', '--l']
 
 
